@@ -17,7 +17,7 @@ func init() {
 	Register(&Rule{ID: "R-SIG-1", Props: []string{"C11", "C01"}, Floor: 1,
 		Doc: "signals stay routed to the cancel function until the deferred rollback and release have run: in the function that calls signal.Notify, signal.Stop / Reset / Ignore is never called directly, and a deferred one is registered before (so it runs after) every deferred call that reaches Rollback or the forced release — otherwise a second signal during the clean-up kills the process with its control files in place",
 		Run: ruleSig1})
-	Register(&Rule{ID: "R-SRT-4", Props: []string{"C04", "C07", "C17"}, Floor: 2,
+	Register(&Rule{ID: "R-SRT-4", Props: []string{"C04", "C07", "C17"}, Floor: 1,
 		Doc: "a cached sort value is filed under the column it was computed from: every store into View.sortValuesInEachCell[r][k] of a NewSortValue result takes that result from RecordSet[r][k] with the same r and k — the cache is shared by all analytic functions and ORDER BY on the view, so a value filed under another column's slot makes a later PARTITION BY / ORDER BY bucket or sort by the wrong column",
 		Run: ruleSrt4})
 	Register(&Rule{ID: "R-KEY-6", Props: []string{"C04"}, Floor: 3,
@@ -84,25 +84,39 @@ func viewCellIndex(addr ssa.Value, field string) (r, k ssa.Value, ok bool) {
 	if !isIA {
 		return nil, nil, false
 	}
-	rowLoad, isU := inner.X.(*ssa.UnOp)
-	if !isU || rowLoad.Op != token.MUL {
-		return nil, nil, false
-	}
-	outer, isIA := rowLoad.X.(*ssa.IndexAddr)
-	if !isIA {
-		return nil, nil, false
-	}
-	for _, o := range core.Origins(outer.X, true) {
-		u, isU := o.(*ssa.UnOp)
-		if !isU {
+	// the row: view.<field>[r], directly or through a local alias of the row (`row := view.<field>[r]`,
+	// possibly nil on another branch)
+	for _, ro := range core.Origins(inner.X, true) {
+		if core.IsNilConst(ro) {
+			continue
+		}
+		rowLoad, isU := ro.(*ssa.UnOp)
+		if !isU || rowLoad.Op != token.MUL {
 			return nil, nil, false
 		}
-		fa, isFA := u.X.(*ssa.FieldAddr)
-		if !isFA || core.FieldOwner(fa) != "lib/query.View."+field {
+		outer, isIA := rowLoad.X.(*ssa.IndexAddr)
+		if !isIA {
 			return nil, nil, false
 		}
+		for _, o := range core.Origins(outer.X, true) {
+			u, isU := o.(*ssa.UnOp)
+			if !isU {
+				return nil, nil, false
+			}
+			fa, isFA := u.X.(*ssa.FieldAddr)
+			if !isFA || core.FieldOwner(fa) != "lib/query.View."+field {
+				return nil, nil, false
+			}
+		}
+		if r != nil && r != outer.Index {
+			return nil, nil, false
+		}
+		r = outer.Index
 	}
-	return outer.Index, inner.Index, true
+	if r == nil {
+		return nil, nil, false
+	}
+	return r, inner.Index, true
 }
 
 func ruleSrt4(c *Ctx) {
